@@ -375,6 +375,8 @@ impl ProjSet {
                 }
                 // schema-valid files resources of unusual but legal spelling (one target in two):
                 // paths ending in `..`, `.` and a missing directory, with an extension filter
+                // (inputs only: a declared output would make every consumer of `<t>.output`
+                // skippable and repeated invocations would no longer run the same set)
                 let odd_paths = super::report::fnv(&t.name) % 2 == 0;
                 if odd_paths {
                     input.push(json!({"paths": ["gen/..", ".", "missing/.."], "extensions": ["zvgen", ""]}));
@@ -406,9 +408,6 @@ impl ProjSet {
                     (PKind::Build, _) => {
                         doc.insert("build".into(), json!(scr));
                         doc.insert("input".into(), json!(input));
-                        if odd_paths {
-                            doc.insert("output".into(), json!([{"paths": ["gen/sub/.."], "extensions": [".zvout"]}]));
-                        }
                     }
                     (PKind::Service, m) => {
                         doc.insert("service".into(), json!(scr));
